@@ -69,6 +69,8 @@ let dispatch (fn : string) : jv -> jv = match fn with
   | "key_from_password" -> key_from_password_j
   | "replay_run" -> replay_run_j
   | "replay_conc" -> replay_conc_j
+  | "send_to_kdc" -> send_to_kdc_j
+  | "send_to_kdc_visible" -> send_to_kdc_visible_j
   | _ -> failwith ("unknown model function " ^ fn)
 
 let () =
